@@ -46,6 +46,11 @@ def compare(o, fa, fb, tag):
             o.fail("field_shape_differs_" + k, tag)
             continue
         if k == "dp":
+            if np.isnan(float(a)) and np.isnan(float(b)):
+                # the same undefined value on both sides (e.g. a friction correlation evaluated far below its range) is
+                # not a coupling between assemblies; what makes it undefined is C12's subject
+                o.classes["nan_pressure_drop"] = True
+                continue
             d = abs(float(a) - float(b)) / max(abs(float(a)), 1e-300)
             o.metric("pressure_drop_rel_dev", d)
             o.check(d <= TOL, "pressure_drop_differs", "%s: %.10e vs %.10e" % (tag, float(a), float(b)))
